@@ -467,3 +467,11 @@ CSV_ARR = z3.Function("csv_arr", z3.StringSort(), z3.ArraySort(z3.IntSort(), z3.
 # shaped strings for the range codec: decimal text of n, and the text "a-b" (uninterpreted: only their decoding matters)
 NUMSTR = z3.Function("decimal_text", z3.IntSort(), z3.StringSort())
 RNGSTR = z3.Function("range_text", z3.IntSort(), z3.IntSort(), z3.StringSort())
+ISDIGIT = z3.Function("text_isdigit", z3.StringSort(), z3.BoolSort())
+STRINT = z3.Function("text_int", z3.StringSort(), z3.IntSort())
+
+
+def numstr_axioms():
+    """assumed str algebra for decimal texts (audited): str(n).isdigit() and int(str(n)) == n for n >= 0"""
+    n = z3.Int("n!ns")
+    return [z3.ForAll([n], z3.Implies(n >= 0, z3.And(ISDIGIT(NUMSTR(n)), STRINT(NUMSTR(n)) == n)))]
